@@ -74,7 +74,9 @@ Definition pdp_rewardok (i : pdp_inst) (acts : list nat) : bool :=
   Nat.ltb 1 (length acts) && forallb (fun a => Nat.ltb a (length (pdist i))) acts.
 
 (* ---------------------------------------------------------------- check_solution_validity *)
-(* the depot is prepended unless force_start_at_depot; then: sorted == arange(len); actions[:, 1:-1] != 0;
+(* the depot is prepended unless force_start_at_depot; then: actions.size(1) == td["locs"].size(-2) (added by the fix
+   5d5f57a, recorded as fixed in known_findings.json: before it a route omitting the highest-numbered pairs was
+   accepted); sorted == arange(len); actions[:, 1:-1] != 0;
    visited_time = argsort(actions) (= position of each node, the list being a permutation by the first test);
    visited_time[:, 1 : L//2+1] < visited_time[:, L//2+1 :]  -- an elementwise comparison that BROADCASTS when one
    side has a single column and raises when the shapes are incompatible *)
@@ -102,6 +104,7 @@ Definition pdp_checker (i : pdp_inst) (acts : list nat) : bool :=
   let full := pdp_full i acts in
   let L := length full in
   let vtime := fun j => pos j full in
+  Nat.eqb L (length (pdist i)) &&
   sorted_is_arange full &&
   forallb (fun a => negb (Nat.eqb a 0)) (mid full) &&
   lt_broadcast (map vtime (seq 1 (L / 2))) (map vtime (seq (L / 2 + 1) (L - L / 2 - 1))).
